@@ -1160,6 +1160,46 @@ def m_fmt_args(ex, m, args, callee):
     return Opaque('fmt', None)
 
 
+@model(r'^<Vec<u8> as Write>::write_fmt$|^<Vec<u8> as io::Write>::write_fmt$')
+def m_vec_write_fmt(ex, m, args, callee):
+    """write!(vec, ...): the rendered text is appended as bytes; io::Result is always Ok for a Vec"""
+    r = innermost_ref(args[0])
+    buf = load(r)
+    txt = m_format(ex, None, [args[1]], callee)
+    rng = ex.env.get('fmt_int_range')
+    if isinstance(txt, Opaque) and isinstance(txt.info, tuple) and txt.info[0] == 'pieces' and rng:
+        # symbolic integers in the text: enumerate their (harness-bounded) values so that the text stays concrete
+        out = []
+        for pc in txt.info[1]:
+            if isinstance(pc, str):
+                out.append(pc)
+                continue
+            v = deref_all(pc[1])
+            if is_z3(v) and z3.is_int(v):
+                out.append(str(ex.concretize_int(v, 'formatted integer', rng[0], rng[1])))
+            else:
+                out = None
+                break
+        if out is not None:
+            txt = ''.join(out)
+    if isinstance(buf, Arr) and isinstance(txt, str) and all(is_conc(x) for x in buf.fields):
+        store(r, Arr(list(buf.fields) + list(txt.encode('utf-8'))))
+    else:
+        store(r, Opaque('bytes-buffer', 'written'))
+    return ex.make_variant('Result', 'Ok', [Tup([])])
+
+
+@model(r'^String::from_utf8$')
+def m_from_utf8(ex, m, args, callee):
+    v = val(args[0])
+    if isinstance(v, Arr) and all(is_conc(x) for x in v.fields):
+        try:
+            return ex.make_variant('Result', 'Ok', [bytes(int(x) for x in v.fields).decode('utf-8')])
+        except UnicodeDecodeError:
+            return ex.make_variant('Result', 'Err', [Opaque('FromUtf8Error')])
+    return ex.make_variant('Result', 'Ok', [Opaque('string', 'from_utf8')])
+
+
 @model(r'^(format|format_inner)$')
 def m_format(ex, m, args, callee):
     a = val(args[0])
@@ -2053,7 +2093,10 @@ def m_set_insert(ex, m, args, callee):
 def m_map_get(ex, m, args, callee):
     mp = map_of(args[0])
     k = m.group(2)
-    fk = freeze(args[1])
+    try:
+        fk = freeze(args[1])
+    except Unmodelled:
+        fk = _symbolic_dim_key(ex, mp, args[1])
     e = mp.ent.get(fk)
     present = e[1] if e is not None else False
     if k in ('contains_key', 'contains'):
@@ -2068,6 +2111,33 @@ def m_map_get(ex, m, args, callee):
     if m.group(1) in ('BTreeSet', 'HashSet'):
         return some(ex, Ref(r.cell, r.path + (('k', fk),)))
     return some(ex, Ref(r.cell, r.path + (('v', fk),)))
+
+
+def _symbolic_dim_key(ex, mp, keyarg):
+    """a Dimensionality with symbolic entries used as a key into a map with concrete Dimensionality keys: fork on equality
+    with each stored key (exponent-wise); returns the frozen stored key that equals it, or a key that is not in the map"""
+    kv = deref_all(keyarg)
+    if not (isinstance(kv, Struct) and kv.name == 'Dimensionality' and isinstance(kv.fields[0], MapV)):
+        raise Unmodelled('non-concrete container key %r' % (kv,))
+    mine = kv.fields[0].ent
+    for fk, (stored, present, _v) in sorted(mp.ent.items()):
+        sk = deref_all(stored)
+        if not (isinstance(sk, Struct) and sk.name == 'Dimensionality'):
+            raise Unmodelled('symbolic key against a map of %r' % (sk,))
+        theirs = sk.fields[0].ent
+        conds = []
+        for name in sorted(set(mine) | set(theirs)):
+            mp_, me = (mine[name][1], mine[name][2]) if name in mine else (False, 0)
+            tp_, te = (theirs[name][1], theirs[name][2]) if name in theirs else (False, 0)
+            # effective exponent (0 when absent) must agree; entries never carry 0 (representation invariant)
+            conds.append(n_eq(b_ite(mp_, me, 0) if not isinstance(mp_, bool) else (me if mp_ else 0),
+                              b_ite(tp_, te, 0) if not isinstance(tp_, bool) else (te if tp_ else 0)))
+        c = True
+        for x in conds:
+            c = b_and(c, x)
+        if ex.branch(c, 'dimensionality key equals %r' % (fk,)):
+            return fk
+    return ('no-such-key',)
 
 
 class EntryV:
